@@ -191,12 +191,17 @@ func boundaryPool() []any {
 		add(n)
 	}
 	for _, f := range []float64{0, math.Copysign(0, -1), 1, -1, 0.5, -0.5, 1.5, 2, 3, 2.5, 127, 128, 255.5, 1 << 31, 1 << 32, 1<<53 - 1, 1 << 53, -(1 << 53), 1e15, 1e-9, -1e-9,
-		math.SmallestNonzeroFloat64, -math.SmallestNonzeroFloat64, 5e-324 * 4, math.MaxFloat64, -math.MaxFloat64, math.Inf(1), math.Inf(-1), 1e300, -1e300} {
+		math.SmallestNonzeroFloat64, -math.SmallestNonzeroFloat64, 5e-324 * 4, math.MaxFloat64, -math.MaxFloat64, math.Inf(1), math.Inf(-1), 1e300, -1e300,
+		// the powers of two at which conversions to int64 / uint64 stop being exact or wrap, and their neighbours
+		1 << 62, 1 << 63, -(1 << 63), 1 << 64, 1<<63 - 1024, 1<<63 + 2048, -(1 << 63) - 2048, 1<<64 - 2048, 1<<53 + 2} {
 		add(f)
 	}
 	for _, s := range []string{"", "a", "aa", "ab", "abc", "b", "a\x00", "a\x00\x00", "a\x00b", "a\x01", "a\xff", "a\xffb", "\x00", "\x00\x00", "\x00\x01", "\x00\xff", "\xff", "\xff\x00", "\xff\xff", "\xfe", "é", "z", "A", "0", "10", "9", " "} {
 		add(s)
 	}
+	// long strings with long common prefixes (around 1024 and 8192 bytes): nothing may look at a prefix only
+	k1024, q8192 := strings.Repeat("k", 1024), strings.Repeat("q", 8192)
+	add(k1024[:1023], k1024, k1024+"a", k1024+"b", k1024+"a\x00", q8192, q8192+"x", q8192+"y")
 	locs := []*time.Location{time.UTC, time.FixedZone("", 3600), time.FixedZone("", -9*3600)}
 	for i, t := range []time.Time{
 		time.Unix(0, 0), time.Unix(0, 1), time.Unix(1, 0), time.Unix(1_600_000_000, 0), time.Unix(1_600_000_000, 1), time.Unix(1_600_000_000, 999_999_999),
